@@ -28,6 +28,12 @@ MUTANTS: List[Dict[str, Any]] = [
         "edits": [{"file": "rp2/plugin/report/open_positions.py", "old": "            if asset in asset_cost_bases and asset not in asset_crypto_balance_holder:\n                total_cost_basis -= asset_cost_bases.pop(asset)\n", "new": ""}],
     },
     {
+        "id": "revert-FX8",
+        "what": "the year-to-row map of the full report is not emptied per report (the defect fixed by FX8): stale Summary links in a second report of one interpreter",
+        "checks": ["C19"],
+        "edits": [{"file": "rp2/plugin/report/rp2_full_report.py", "old": "        self.__tax_sheet_year_2_row = {}\n\n        template_path", "new": "        template_path"}],
+    },
+    {
         "id": "hifo-key-flipped",
         "what": "HIFO sort key uses +price (behaves like LOFO)",
         "checks": ["C01"],
